@@ -45,8 +45,15 @@ def _go_fatal(stderr, last_rec):
         if not ln.startswith("\t") and not ln.startswith("..."):
             frames.append(ln.split("(")[0].strip() if not ln.startswith(_REPO_PKG) else ln[:ln.rfind("(")].strip())
     user = [f for f in frames if not f.startswith("runtime.") and not f.startswith("runtime/")]
-    if not user or not user[0].startswith(_REPO_PKG):
+    if not user:
         return None
+    if not user[0].startswith(_REPO_PKG):
+        # unsynchronised access to a map of a third-party object (e.g. a goja runtime) is detected inside that library;
+        # it is the library's caller - omniparser code further down the same stack - that shared the object
+        repo = [f for f in user if f.startswith(_REPO_PKG)]
+        if not (m.group(1).startswith("concurrent map") and repo):
+            return None
+        user = repo + user
     return {"fatal": m.group(1).strip(), "function": user[0], "frames": user[:8], "last_record": last_rec,
             "summary": "the process died with the Go runtime fatal error '%s' inside %s%s" % (
                 m.group(1).strip(), user[0], (" after " + json.dumps(last_rec)[:300]) if last_rec else "")}
